@@ -7,7 +7,7 @@ FAMILY = "run"
 
 MANIFEST = {
  "level": "other",
- "text": "Partly proved, partly explored. The interpreter model is by construction a function of the program and environment TREES, the flags and the budget (its value type has no representation), and it is compared with the implementation run in a fresh allocator and again after a random allocator history with every atom re-encoded (inline / heap / substring view). Proved about the allocator model (Props/C03.v): every read the interpreter performs through the allocator - small_number() used for keyword and opcode recognition and GC candidates, atom bytes, integer value, atom equality - is the tree-level function of the denoted tree whatever the representation; no later allocation, restore or failed operation changes what an existing node denotes (any history); the representation-dependent GC scheduling cannot change an outcome (C04). Not proved: the store-refinement theorem composing these into 'run on the arena = run on the denoted trees', the representation-dependent fast paths (C05) and the BLS validated-point cache (covered by the correspondence, which pre-loads it).",
+ "text": "Partly proved, partly explored. The interpreter model is by construction a function of the program and environment TREES, the flags and the budget (its value type has no representation), and it is compared with the implementation run in a fresh allocator and again after a random allocator history with every atom re-encoded (inline / heap / substring view). Proved about the allocator model (Props/C03.v): every read the interpreter performs through the allocator - small_number() used for keyword and opcode recognition and GC candidates, atom bytes, integer value, atom equality - is the tree-level function of the denoted tree whatever the representation; no later allocation, restore or failed operation changes what an existing node denotes (any history); the representation-dependent GC scheduling cannot change an outcome (C04). the BLS validated-point cache is unobservable over every history of cache operations from any sound cache (C03_bls_cache; Model/BlsCache.v transcribes validate_g1/g2, new_g1/g2, add_validated, clear and the translator pins their shape; premises about the curve library: results of group operations and sign flips of valid points are valid encodings), and an insert-before-validate cache is observable (C03_bls_cache_fragile). Not proved: the store-refinement theorem composing these into 'run on the arena = run on the denoted trees' and the representation-dependent operator fast paths (C05). The implementation search also re-runs each program after earlier runs of the same nodes in the same allocator (same or other flags).",
  "note": vlib.NOTE_COMMON + " Level 'other': see text.",
  "technique": "Coq proof (representation-independence of allocator reads; fast path = generic path) + model/implementation differential run + implementation search fresh vs pre-populated/re-encoded allocator",
 }
